@@ -240,6 +240,12 @@ func handleError(err error, w http.ResponseWriter, r *http.Request) {
 		statusCode = 400
 	case authentication.ErrMalformedTrailer:
 		statusCode = 400
+	case authentication.ErrChunkSignatureMismatch:
+		// A chunk or trailer signature of an aws-chunked upload did not verify:
+		// an authentication failure of the payload, not a server error.
+		statusCode = 403
+		errResponse.Code = "SignatureDoesNotMatch"
+		errResponse.Message = "The chunk signature we calculated does not match the signature you provided"
 	case storage.ErrInvalidRange:
 		statusCode = 416
 	case storage.ErrNoSuchBucket:
